@@ -20,7 +20,7 @@ func init() {
 		Explanation: "DECIDED (borrow/alias, dominance and table rules): defaults-borrowed (in both targeter closures the value slices of the default header map and the default body are borrowed: nothing derived from them is the first operand of append, stored through, sorted, or reachable through the target's header map by a later append on the same key; copies clear the taint) — this is 'decoding a later target never changes an earlier one nor the defaults' for all inputs and spare capacities; merge-order (default header values are written before the target's own on every path; the default body is set first and overwritten only when the target brings its own); header-case (C06 who-may-call rule on the parsers); target JSON codec (encoder keys = decoder cases = Target's tags, inverse copying method pairs, omitempty guards only on tagged fields, every field handled by encoder, decoder and Target.Equal; method and url checks dominate the success return); exhaustion (ErrNoTargets exactly on the end-of-input edges; ReadAllTargets uses a fresh Target per call, keeps every decoded target and stops only on ErrNoTargets). " +
 			"NOT DECIDED: that the http line grammar (peeked lines, comments, blank lines) maps every well-formed document to the described targets — a language-level behavioural claim.",
 		Assumptions: []string{"append with sufficient spare capacity writes in place (Go slice semantics)"},
-		MinObs:      16,
+		MinObs:      20,
 		Run:         runC14,
 	})
 	register(&propSpec{
@@ -29,7 +29,7 @@ func init() {
 		Explanation: "DECIDED (lockset over captured state, all schedules): for every constructor in lib returning a Targeter built from a function literal, every captured variable that the closure (or an in-package helper it calls) writes, or on which it calls a method of a not-goroutine-safe type (*bufio.Reader, *bufio.Scanner, peekingScanner), is accessed only while a captured sync.Mutex is held (explicit Unlock on all paths or deferred) or through sync/atomic; read-only captures have no store; no buffer alias escapes the lock (line data comes from copying APIs ReadBytes/ReadString/Scanner.Text, never ReadSlice/ReadLine/Peek/Scanner.Bytes); the static targeter advances its counter with exactly one atomic read-modify-write per call and indexes with that call's result modulo len of the same slice, copying the Target value. " +
 			"NOT DECIDED: the multiset equality itself (implied by these plus C14); race-detector runs are another family.",
 		Assumptions: []string{"sync.Mutex and sync/atomic semantics"},
-		MinObs:      8,
+		MinObs:      6,
 		Run:         runC15,
 	})
 }
@@ -155,34 +155,99 @@ func runC14(c *Ctx) {
 			}
 		}
 
-		// merge order: header
-		var fromDefaults, own []*ssa.MapUpdate
+		// merge order: header. A header-write event is a map update on the target's header, or a
+		// call of a same-package helper that copies one header map into another.
+		type hdrEvent struct {
+			at           ssa.Instruction
+			fromDefaults bool
+		}
+		var events []hdrEvent
 		eachInstr(cl, func(i ssa.Instruction) {
-			mu, ok := i.(*ssa.MapUpdate)
-			if !ok || !isNamedType(mu.Map.Type(), "net/http", "Header") || isDefaultsMap(mu.Map) {
-				return
-			}
-			if flowsFrom(mu.Value, isSource) {
-				fromDefaults = append(fromDefaults, mu)
-			} else {
-				own = append(own, mu)
+			switch x := i.(type) {
+			case *ssa.MapUpdate:
+				if !isNamedType(x.Map.Type(), "net/http", "Header") || isDefaultsMap(x.Map) {
+					return
+				}
+				events = append(events, hdrEvent{x, flowsFrom(x.Value, isSource)})
+			case *ssa.Call:
+				h := x.Call.StaticCallee()
+				if h == nil || h.Pkg != cl.Pkg || len(h.Blocks) == 0 {
+					return
+				}
+				// helper(dst, src): writes into its header-typed parameter
+				writes := false
+				eachInstr(h, func(j ssa.Instruction) {
+					if mu, ok := j.(*ssa.MapUpdate); ok {
+						if _, isP := mu.Map.(*ssa.Parameter); isP && isNamedType(mu.Map.Type(), "net/http", "Header") {
+							writes = true
+						}
+					}
+				})
+				if !writes {
+					return
+				}
+				fromDef := false
+				for k, arg := range x.Call.Args {
+					if isDefaultsMap(arg) && k < len(h.Params) {
+						fromDef = true
+						// the helper must treat what it ranges out of that parameter as borrowed too
+						p := h.Params[k]
+						sub := analyzeBorrow(h, func(v ssa.Value) bool {
+							if ex, ok := v.(*ssa.Extract); ok && ex.Index == 2 {
+								if nx, ok := ex.Tuple.(*ssa.Next); ok {
+									if rg, ok := nx.Iter.(*ssa.Range); ok && rg.X == ssa.Value(p) {
+										return true
+									}
+								}
+							}
+							if lk, ok := v.(*ssa.Lookup); ok && !lk.CommaOk && lk.X == ssa.Value(p) {
+								return true
+							}
+							return false
+						}, 1)
+						if len(sub.Sinks) > 0 {
+							c.Fail(fmt.Sprintf("borrow:%s:%s", shortFn(cl), shortFn(h)), rBorrow, sub.Sinks[0].What+" (in helper "+shortFn(h)+"): decoding a later target can change an earlier target or the defaults", c.at(sub.Sinks[0].Instr))
+						}
+					}
+				}
+				events = append(events, hdrEvent{x, fromDef})
 			}
 		})
 		keyO := "merge-order:" + shortFn(cl) + ":header"
 		if len(hdrCells) > 0 {
-			ok := len(fromDefaults) >= 1 && len(own) >= 1
-			why := fmt.Sprintf("%d default-header writes and %d own-header writes found", len(fromDefaults), len(own))
-			for _, d := range fromDefaults {
-				for _, o := range own {
-					// every path to an own write has finished the defaults loop: the defaults loop header dominates, and own is not inside it
-					dh := loopHeaderOf(d.Block())
-					if dh == nil || !dh.Dominates(o.Block()) || loopHeaderOf(o.Block()) == dh {
-						ok, why = false, "the target's own header values can be written before (or interleaved with) the defaults: defaults must come first"
+			nDef, nOwn := 0, 0
+			ok := true
+			why := ""
+			for _, d := range events {
+				if d.fromDefaults {
+					nDef++
+				} else {
+					nOwn++
+				}
+			}
+			if nDef == 0 || nOwn == 0 {
+				ok, why = false, fmt.Sprintf("%d default-header writes and %d own-header writes found", nDef, nOwn)
+			}
+			for _, d := range events {
+				if !d.fromDefaults {
+					continue
+				}
+				for _, o := range events {
+					if o.fromDefaults {
+						continue
+					}
+					dh := loopHeaderOf(d.at.Block())
+					if dh != nil {
+						// every path to an own write has finished the defaults loop
+						if !dh.Dominates(o.at.Block()) || loopHeaderOf(o.at.Block()) == dh {
+							ok, why = false, "the target's own header values can be written before (or interleaved with) the defaults: defaults must come first"
+						}
+					} else if !instrDominates(d.at, o.at) {
+						ok, why = false, "the target's own header values can be written before the defaults: defaults must come first"
 					}
 				}
-				// defaults must keep existing values: value = append(existing, defaults...) or plain assignment into a fresh map
 			}
-			c.Check(ok, keyO, rOrder, "defaults loop dominates the target's own header writes", why, c.fnAt(cl))
+			c.Check(ok, keyO, rOrder, "defaults are written before the target's own header values", why, c.fnAt(cl))
 		}
 		// merge order: body
 		if len(bodyCells) > 0 {
@@ -210,7 +275,18 @@ func runC14(c *Ctx) {
 			why := "the default body is never assigned, or a target can never bring its own body"
 			for _, o := range overrides {
 				if def != nil && !instrDominates(def, o) {
-					ok, why = false, "the target's own body can be overwritten by the default"
+					// accepted: default and own body in the two arms of one test on the target's own body
+					arms := false
+					for _, fo := range factsAt(o.Block()) {
+						for _, fd := range factsAt(def.Block()) {
+							if fo.If != nil && fo.If == fd.If && fo.Val != fd.Val && fo.Cond == fd.Cond {
+								arms = true
+							}
+						}
+					}
+					if !arms {
+						ok, why = false, "the target's own body can be overwritten by the default"
+					}
 				}
 				if len(factsAt(o.Block())) == 0 || def != nil && o.Block() == def.Block() {
 					ok, why = false, "the default body is replaced unconditionally"
@@ -860,32 +936,51 @@ func c14PeekingScanner(c *Ctx) {
 		c.Saw("function " + shortFn(f))
 	}
 	isPeeked := func(v ssa.Value) bool { return strings.HasSuffix(describeVal(v), ".peeked") }
-	emptyTest := func(fn *ssa.Function) *ssa.If {
-		var out *ssa.If
+	// emptyTest returns the blocks entered when the lookahead is empty / non-empty.
+	emptyTest := func(fn *ssa.Function) (onEmpty, onPeeked *ssa.BasicBlock) {
 		eachInstr(fn, func(i ssa.Instruction) {
-			if bo, ok := i.(*ssa.BinOp); ok && bo.Op == token.EQL && isPeeked(bo.X) {
-				if s, isS := constString(bo.Y); isS && s == "" {
-					out = trueImpliesIf(bo)
+			bo, ok := i.(*ssa.BinOp)
+			if !ok || (bo.Op != token.EQL && bo.Op != token.NEQ) || !isPeeked(bo.X) {
+				return
+			}
+			if s, isS := constString(bo.Y); !isS || s != "" {
+				return
+			}
+			var ifi *ssa.If
+			for _, r := range refs(bo) {
+				if x, ok := r.(*ssa.If); ok {
+					ifi = x
 				}
 			}
+			if ifi == nil {
+				ifi = trueImpliesIf(bo)
+			}
+			if ifi == nil {
+				return
+			}
+			if bo.Op == token.EQL {
+				onEmpty, onPeeked = ifi.Block().Succs[0], ifi.Block().Succs[1]
+			} else {
+				onEmpty, onPeeked = ifi.Block().Succs[1], ifi.Block().Succs[0]
+			}
 		})
-		return out
+		return
 	}
 	ok, why := true, ""
 	// Text
-	if ifi := emptyTest(text); ifi == nil {
+	if onEmpty, onPeeked := emptyTest(text); onEmpty == nil {
 		ok, why = false, "Text does not test the lookahead"
 	} else {
 		// empty → returns src.Text()
 		okE := false
-		for _, r := range returnsIn(exploreBlock(ifi.Block().Succs[0], nil)) {
+		for _, r := range returnsIn(exploreBlock(onEmpty, nil)) {
 			if call, isCall := r.(*ssa.Return).Results[0].(*ssa.Call); isCall && callName(&call.Call) == "(*bufio.Scanner).Text" {
 				okE = true
 			}
 		}
 		// non-empty → clears peeked before returning the old value
 		cleared := false
-		set := exploreBlock(ifi.Block().Succs[1], func(i ssa.Instruction) bool {
+		set := exploreBlock(onPeeked, func(i ssa.Instruction) bool {
 			if st, isSt := i.(*ssa.Store); isSt {
 				if fa, isFA := st.Addr.(*ssa.FieldAddr); isFA && fieldName(fa.X.Type(), fa.Field) == "peeked" {
 					if s, isS := constString(st.Val); isS && s == "" {
@@ -904,18 +999,20 @@ func c14PeekingScanner(c *Ctx) {
 		}
 	}
 	// Scan
-	if ifi := emptyTest(scan); ok && ifi == nil {
+	if onEmpty, onPeeked := emptyTest(scan); ok && onEmpty == nil {
 		ok, why = false, "Scan does not test the lookahead"
 	} else if ok {
 		adv := false
-		for i := range exploreBlock(ifi.Block().Succs[0], nil) {
+		for i := range exploreBlock(onEmpty, nil) {
 			if isCallTo(i, "(*bufio.Scanner).Scan") {
 				adv = true
 			}
 		}
 		skip := false
-		for i := range exploreBlock(ifi.Block().Succs[1], nil) {
-			if isCallTo(i, "(*bufio.Scanner).Scan") {
+		// on the peeked edge the scanner must not be advanced before returning; stop at the join with the empty path
+		emptySet := exploreBlock(onEmpty, nil)
+		for i := range exploreBlock(onPeeked, func(x ssa.Instruction) bool { return x.Block() != onPeeked && emptySet[x] && false }) {
+			if isCallTo(i, "(*bufio.Scanner).Scan") && !(i.Block() == onEmpty || onEmpty.Dominates(i.Block())) {
 				skip = true
 			}
 		}
